@@ -6,7 +6,7 @@ Line-protocol driver for C12.  One case = space separated `key=value` words:
 
   ex=bytes|string|json|form|jb|ue|tbl|tbs  lim=<n>|dflt  cl=none|bad|<n>  enc=id|gz|df|br|zs
   body=<spec>  wire=<n>  cuts=<tok,tok,…>
-  ex=mp form=A|B|C total=<n>|dflt mem=<n>|dflt fields=<name:len;…> cuts=<…>
+  ex=mp form=A|B|C|D total=<n>|dflt mem=<n>|dflt fields=<name:len;…> cuts=<…>
   ex=fb lim=<n> body=<spec> cuts=<…>      (`Field::bytes(lim)` on the first of two multipart fields)
 
 `body` is the *plain* (decoded) body: `x:<hex>` | `r:<byte>:<n>` | `q:<seed>:<n>` (LCG) |
@@ -180,14 +180,23 @@ def runStream (ws : List String) (ex : String) : String :=
 
 /-! multipart -/
 
+/-- `MultipartCollect::limit(field_name)`: keyed by the WIRE name of the part (for a renamed
+struct field that is the `rename` value, not the Rust identifier).  Form D: `payload[]` (16),
+`ctl` (16), `single` (8); a part called `payload` or `one` (the Rust identifiers) is unknown. -/
 def mpLimitOf (form : String) (name : String) : Option Nat :=
-  if form == "A" then
+  if form == "D" then
+    (if name == "payload[]" || name == "ctl" then some 16 else if name == "single" then some 8 else none)
+  else if form == "A" then
     (if name == "a" then some 16 else if name == "t" then some 24 else if name == "s" then some 8 else none)
   else if form == "B" then (if name == "a" then some 16 else none)
   else (if name == "b" then some 16 else none)
 
 def mpKind (form : String) (name : String) (seen : Bool) : FieldKind :=
-  if form == "A" then
+  if form == "D" then
+    if name == "payload[]" || name == "ctl" then .memory
+    else if name == "single" then (if seen then .discard else .memory)
+    else .discard
+  else if form == "A" then
     if name == "a" then .memory
     else if name == "t" then .file
     else if name == "b" || name == "s" then (if seen then .discard else .memory)
